@@ -367,8 +367,51 @@ func init() {
 				return solvencyCheck(x, ref)
 			}, func(w *world.World, root *engine.Node) engine.Ref { return newRewRef() }, tierPick(tier, 3, 6))
 			unionFull.Required = []string{"solvency.states_with_claimable_rewards"}
+			// an asset that earned rewards is emptied, deleted by governance and whitelisted again with a warm-up period; the
+			// validators keep their reward indices of the old incarnation. Stake arriving during the new warm-up must not be
+			// able to claim what the old incarnation's delegators were already paid
+			ccfg := world.DefaultConfig()
+			ccfg.RewardDelay = 2 * U
+			ccfg.Assets = []world.AssetCfg{{Denom: "aaa", Weight: "1", Min: "0", Max: "5", TakeRate: "0"}, {Denom: "bbb", Weight: "1", Min: "0", Max: "5", TakeRate: "0"}}
+			recreated := &engine.Scenario{
+				Property: "C12", Name: "c12-recreated-asset", Cfg: ccfg, Stores: world.ModuleStores,
+				Seeds: [][]world.Op{{opDel(0, 0, "aaa", "1000000"), opDel(1, 0, "bbb", "1000000"), opBlock(1), opReward("stake", "6000000"),
+					{K: world.KClaim, D: 0, V: 0, Denom: "aaa"}, {K: world.KUndelegateAll, D: 0, V: 0, Denom: "aaa"},
+					{K: world.KGovDelete, Denom: "aaa", Args: map[string]string{"signer": "authority"}},
+					{K: world.KGovCreate, Denom: "aaa", Args: govArgs("authority", "1", "0,5", "0", "1", 0, false)}}},
+				ClassNames: classNames, Budgets: tierPick(tier, []int{2, 0, 2, 3, 0}, []int{3, 0, 3, 4, 0}), MaxDepth: tierPick(tier, 6, 8),
+				NewRef: func(w *world.World, root *engine.Node) engine.Ref { return newRewRef() },
+				Ops: func(n *engine.Node) []world.Op {
+					ops := []world.Op{
+						{K: world.KDelegate, D: 0, V: 0, Denom: "aaa", Amt: "1000000", Class: ClsUser},
+						{K: world.KDelegate, D: 2, V: 0, Denom: "aaa", Amt: "500000", Class: ClsUser},
+						{K: world.KClaim, D: 1, V: 0, Denom: "bbb", Class: ClsUser},
+						{K: world.KBlock, Dt: int64(U), Class: ClsBlock}, {K: world.KBlock, Dt: int64(3 * U), Class: ClsBlock},
+					}
+					if atBlockStart(n) {
+						ops = append(ops, world.Op{K: world.KReward, Denom: "stake", Amt: "6000000", Class: ClsEnv})
+					}
+					return ops
+				},
+				Step: func(x *engine.Exec) []engine.Failure {
+					if x.Res.Rejected {
+						return nil
+					}
+					if x.Op.K == world.KBlock && x.Res.Err != nil {
+						return []engine.Failure{fail("endblock", "error", "block failed: %v", x.Res.Err)}
+					}
+					if x.Op.K == world.KDelegate && x.Op.Denom == "aaa" {
+						if a, ok := x.Prev.Snap().Assets["aaa"]; ok && x.Prev.Snap().Time.Before(a.RewardStartTime) {
+							x.Cnt.Inc("stake.arrived_during_warmup_of_recreated_asset")
+						}
+					}
+					return solvencyCheck(x, x.Next.Ref.(*rewRef))
+				},
+				Required: []string{"solvency.states_with_claimable_rewards", "stake.arrived_during_warmup_of_recreated_asset"},
+			}
 			if tier == "thorough" {
 				return []*engine.Scenario{
+					recreated,
 					unionFull,
 					removed,
 					mk("c12-small", small, rw("1", "7", "1000"), []string{"3"}, []int{3, 1, 2, 2, 0}, 7),
@@ -377,6 +420,7 @@ func init() {
 				}
 			}
 			return []*engine.Scenario{
+				recreated,
 				unionFull,
 				removed,
 				mk("c12-small", small, rw("7", "1000"), []string{"3"}, []int{2, 1, 1, 2, 0}, 4),
